@@ -34,6 +34,17 @@ fn all_envs() -> Vec<BTreeMap<String, String>> {
             }
         }
     }
+    // HOME values of their own: the root and a value with a trailing separator
+    for h in ["/", "//", "/abs/x/"] {
+        for a in [None, Some("plain"), Some("/abs/x")] {
+            let mut e = BTreeMap::new();
+            e.insert("HOME".to_string(), h.to_string());
+            if let Some(x) = a {
+                e.insert("V1".to_string(), x.to_string());
+            }
+            v.push(e);
+        }
+    }
     v
 }
 
@@ -256,7 +267,7 @@ pub fn check_env_seq(case: &EnvSeqCase) -> CaseResult {
 }
 
 pub fn run(c: &Ctx) {
-    c.set_rule("environments: HOME, V1, V2 each in {unset, empty, plain, 'a/b', '/abs/x', 'has space'} (216; quick: a seeded stratified 100), one child process per environment started with env_clear(); templates: a fixed table of error shapes and pinned examples plus seeded samples from the grammar (prefix '', '/', '~/', './' + 1-3 components of <=3 atoms in {literal, $V, ${V}} in every position). Oracle: reference expansion written from the statement (component-level equality; textual and PathBuf::push reading both admitted for a substituted absolute value). Non-trivial = template with >=2 expansions or an error shape; distinct by (environment, template). Plus a variable whose value is not valid UTF-8 (five templates: an error or exactly those bytes). Plus histories over environments: 400 (quick) / 4000 (thorough) seeded sequences of 4 environments visited inside ONE child process (setenv/unsetenv between stages), 8 templates per stage, same oracle against the environment of that moment (non-trivial = HOME differs between two consecutive stages).");
+    c.set_rule("environments: HOME, V1, V2 each in {unset, empty, plain, 'a/b', '/abs/x', 'has space'} (216 + 9 with HOME '/', '//' or a trailing separator; quick: a seeded stratified 100), one child process per environment started with env_clear(); templates: a fixed table of error shapes and pinned examples plus seeded samples from the grammar (prefix '', '/', '~/', './' + 1-3 components of <=3 atoms in {literal, $V, ${V}} in every position). Oracle: reference expansion written from the statement (component-level equality; textual and PathBuf::push reading both admitted for a substituted absolute value). Non-trivial = template with >=2 expansions or an error shape; distinct by (environment, template). Plus a variable whose value is not valid UTF-8 (five templates: an error or exactly those bytes). Plus histories over environments: 400 (quick) / 4000 (thorough) seeded sequences of 4 environments visited inside ONE child process (setenv/unsetenv between stages), 8 templates per stage, same oracle against the environment of that moment (non-trivial = HOME differs between two consecutive stages).");
     c.assume("templates outside the documented grammar ('$V' followed by a literal, unterminated '${', stray braces) are only required not to panic");
     let envs = all_envs();
     let comps = components(3);
@@ -264,7 +275,7 @@ pub fn run(c: &Ctx) {
     let n_envs = c.tier.pick(100, envs.len());
     let per_env = c.tier.pick(1000, 3000);
     // stratified: always the all-unset and all-set environments, the rest seeded
-    let mut chosen: Vec<usize> = vec![0, envs.len() - 1, 2 * 36 + 2 * 6 + 2, 4 * 36 + 3 * 6 + 5, 36 + 6 + 1];
+    let mut chosen: Vec<usize> = vec![0, envs.len() - 1, envs.len() - 9, envs.len() - 5, 2 * 36 + 2 * 6 + 2, 4 * 36 + 3 * 6 + 5, 36 + 6 + 1];
     let mut i = 0u64;
     while chosen.len() < n_envs {
         let k = (splitmix(c.seed ^ splitmix(1700 + i)) % envs.len() as u64) as usize;
